@@ -137,7 +137,7 @@ class C04(Sim):
         M.config.export_edges_in_obj = True
         M.config.complete_edges_from_faces = True
         M.config.complete_faces_from_cells = True
-        self.sw = {"export_edges_in_obj": True}
+        self.sw = {"export_edges_in_obj": True, "complete_edges_from_faces": True}
         self.meshes = []
         for s in cfg["world"]["meshes"]:
             d = RawMeshData()
@@ -237,7 +237,8 @@ class C04(Sim):
         c = self.pick_client(rng, names, weights, cfg["burst"])
         r = self.client_rng(c)
         if c == "config":
-            return {"c": c, "op": "flip", "key": "export_edges_in_obj", "value": not self.sw["export_edges_in_obj"]}
+            k = r.choice(["export_edges_in_obj", "export_edges_in_obj", "complete_edges_from_faces"])
+            return {"c": c, "op": "flip", "key": k, "value": not self.sw[k]}
         if c == "querier":
             return {"c": c, "op": "query", "m": r.below(self._targets()), "which": r.choice(["border", "adjacency", "degree"])}
         fmt = r.choice(cfg["formats"])
@@ -290,7 +291,7 @@ class C04(Sim):
     def _expected_after_load(self, fmt, expressed):
         """normal (non-raw) load: completion derives faces from cells and edges from faces, exactly"""
         spec = {"points": expressed["vertices"], "edges": expressed["edges"], "faces": expressed["faces"], "cells": expressed["cells"]}
-        return Normal(spec, True, True)
+        return Normal(spec, self.sw["complete_edges_from_faces"], True)  # the completion switch in force when the file is loaded
 
     def _judge_loaded(self, op, fmt, path, mesh, info):
         """mesh = mouette.load(path); info = record of the file"""
@@ -403,10 +404,16 @@ class C04(Sim):
                                "save(%s mesh, %r) wrote nothing%s" % (kinds, ev["path"], " (the file written earlier is still there)" if overwrite else ""))
             self.nfile += 1
             ex = self._expressed(fmt, snap, "save")
-            if fmt == "obj" and not self.sw["export_edges_in_obj"]:
-                ex = dict(ex, edges=[])  # the switch removes `l` records from the dialect
-            if fmt in ("obj", "mesh") and snap["hard"] is not None and snap["faces"]:
-                ex = dict(ex, edges=[snap["edges"][i] for i in snap["hard"]] if not (fmt == "obj" and not self.sw["export_edges_in_obj"]) else [])
+            hard = None if snap["hard"] is None else [snap["edges"][i] for i in snap["hard"]]
+            if fmt == "obj":
+                # documented dialect of the exporter: `l` records only while export_edges_in_obj; all edges of a polyline (or of anything
+                # while completion is off: nothing could derive them again), otherwise the declared (hard) edges - the others are sides of faces
+                if not self.sw["export_edges_in_obj"]:
+                    ex = dict(ex, edges=[])
+                elif snap["faces"] and self.sw["complete_edges_from_faces"]:
+                    ex = dict(ex, edges=hard if hard is not None else [])
+            elif fmt == "mesh" and hard is not None:
+                ex = dict(ex, edges=hard)
             self.files[ev["path"]] = {"fmt": fmt, "snap": snap, "expressed": ex, "origin": "save", "kinds": kinds}
             self.seq.append("save:" + fmt)
             if fmt == "stl":
